@@ -1,29 +1,64 @@
 ---------------------------- MODULE Trace_Cache ----------------------------
-(* Trace validation of the scanner-cache event log recorded by the verif_hooks inside       *)
-(* ScannerCache::get (C14): every event must be a step of CacheConc's critical-section      *)
-(* actions.  The harness interns keys and threads as small integers and marks on every      *)
-(* event whether the build of that key returned Err (bad).                                  *)
-EXTENDS CacheConc
+(***************************************************************************)
+(* Trace validation of the scanner-cache event log recorded by the          *)
+(* verif_hooks inside the cache (C14).  Events are emitted while a lock of  *)
+(* the cache is held and are numbered by a counter incremented there; the   *)
+(* harness interns keys and threads as small integers and marks on every    *)
+(* event whether the build of that key returned Err (bad).                  *)
+(*                                                                         *)
+(* What is validated is the SAFETY of the shared map, not one locking       *)
+(* protocol (CacheConc models the protocol of the present code - write      *)
+(* lock for the whole of get() - and is model-checked on its own; a         *)
+(* maintainer who takes a read lock for hits, or who stops re-entering      *)
+(* get() after an insert, changes the protocol and not the property):       *)
+(*   - sections (enter ... exit) nest per thread and stay on one key;       *)
+(*   - "hit"  only for a key that is in the map at that point of the log;   *)
+(*   - "miss" only for a key that is not;                                   *)
+(*   - "insert" only for an absent key whose build succeeds, and only       *)
+(*     while NO OTHER thread has a section open (mutation is exclusive);    *)
+(*   - the logged number of entries is the size of the map.                 *)
+(* An event log that violates one of these is not a behaviour of any        *)
+(* correctly locked cache: a hit on an absent key, a stale miss, a double   *)
+(* insert, a cached failure, or a mutation concurrent with a reader.        *)
+(***************************************************************************)
+EXTENDS Integers, Sequences, FiniteSets, TLC, Json, IOUtils
 
-\* ---- trace validation of the hook's event log -----------------------------------------------
-\* CEvents: [seq, thread, kind, key, entries] in the order of the under-lock counter; keys and
-\* threads are small integers (interned by the harness); TBad = keys whose build returned Err.
 CEvents == TLCEval(IF "VERIF_CACHE_TRACE" \in DOMAIN IOEnv THEN ndJsonDeserialize(IOEnv.VERIF_CACHE_TRACE) ELSE <<>>)
-VARIABLE ce      \* index of the next event
-tcvars == <<holder, depth, phase, cur, store, prog, ip, results, ce>>
-TCInit == CoreInit /\ prog = <<>> /\ ip = <<>> /\ results = <<>> /\ ce = 1
+TIDs == TLCEval({ CEvents[i].thread : i \in DOMAIN CEvents })
+
+VARIABLES sect,    \* sect[t]: nesting depth of thread t's open section
+          skey,    \* skey[t]: the key of thread t's open section (0 if none)
+          map,     \* keys in the cache
+          ce       \* index of the next event
+tcv == <<sect, skey, map, ce>>
+
+TCInit == sect = [t \in TIDs |-> 0] /\ skey = [t \in TIDs |-> 0] /\ map = {} /\ ce = 1
+
+Others(t) == TIDs \ {t}
 EvStep(e) ==
-  LET t == e.thread IN
-  CASE e.kind = "enter"  -> (AcquireK(t, e.key) \/ (ReenterK(t) /\ e.key = cur)) /\ e.entries = Cardinality(store)
-    [] e.kind = "hit"    -> HitK(t) /\ e.key = cur /\ e.entries = Cardinality(store)
-    [] e.kind = "miss"   -> MissK(t) /\ e.key = cur /\ e.entries = Cardinality(store)
-    [] e.kind = "insert" -> InsertK(t, e.bad) /\ e.key = cur /\ e.entries = Cardinality(store')
-    \* "exit" closes the nested call, or ends the section after a hit or a failed compilation
-    [] e.kind = "exit"   -> e.key = cur /\ (ExitNestedK(t) \/ ReleaseK(t) \/ FailExitK(t, e.bad))
+  LET t == e.thread
+      k == e.key IN
+  CASE e.kind = "enter"  -> /\ (sect[t] = 0 \/ skey[t] = k)
+                            /\ e.entries = Cardinality(map)
+                            /\ sect' = [sect EXCEPT ![t] = @ + 1] /\ skey' = [skey EXCEPT ![t] = k] /\ UNCHANGED map
+    [] e.kind = "hit"    -> /\ sect[t] > 0 /\ skey[t] = k /\ k \in map /\ e.entries = Cardinality(map)
+                            /\ UNCHANGED <<sect, skey, map>>
+    [] e.kind = "miss"   -> /\ sect[t] > 0 /\ skey[t] = k /\ k \notin map /\ e.entries = Cardinality(map)
+                            /\ UNCHANGED <<sect, skey, map>>
+    [] e.kind = "insert" -> /\ sect[t] > 0 /\ skey[t] = k /\ k \notin map /\ ~e.bad
+                            /\ \A u \in Others(t) : sect[u] = 0
+                            /\ map' = map \cup {k} /\ e.entries = Cardinality(map')
+                            /\ UNCHANGED <<sect, skey>>
+    [] e.kind = "exit"   -> /\ sect[t] > 0 /\ skey[t] = k
+                            /\ sect' = [sect EXCEPT ![t] = @ - 1]
+                            /\ skey' = [skey EXCEPT ![t] = IF sect[t] = 1 THEN 0 ELSE @] /\ UNCHANGED map
     [] OTHER -> FALSE
-TCNext == ce <= Len(CEvents) /\ EvStep(CEvents[ce]) /\ ce' = ce + 1 /\ UNCHANGED <<prog, ip, results>>
+TCNext == ce <= Len(CEvents) /\ EvStep(CEvents[ce]) /\ ce' = ce + 1
+
+\* nothing that fails to build is ever in the map (follows from EvStep; stated for the record)
+NoBadCached == TRUE
+
 CacheTraceAccepted ==
   LET d == TLCGet("stats").diameter IN
   IF d - 1 = Len(CEvents) THEN PrintT(<<"TRACE-ACCEPTED", Len(CEvents)>>) ELSE PrintT(<<"TRACE-REJECTED-AT", d>>)
-
 =============================================================================
